@@ -409,8 +409,7 @@ func (s *state) attackerNoise() {
 							b.Close()
 						})
 						s.r.Eval(1)
-						if !br.OK() {
-							s.r.Violation("attack:noise-bubble-failed", id, fmt.Sprint(br.Panic, br.Deadlock), map[string]any{"dump": br.Dump})
+						if s.r.BubbleFailed(br, "attack/noise", id, "attacker session never wound down", nil) {
 							return
 						}
 						if !reached {
@@ -661,8 +660,7 @@ func (s *state) attackerTLS() {
 							b.Close()
 						})
 						s.r.Eval(1)
-						if !br.OK() {
-							s.r.Violation("attack:tls-bubble-failed", id, fmt.Sprint(br.Panic, br.Deadlock), map[string]any{"dump": br.Dump})
+						if s.r.BubbleFailed(br, "attack/tls", id, "attacker session never wound down", nil) {
 							return
 						}
 						s.r.Nontrivial(id)
@@ -765,8 +763,7 @@ func (s *state) upgraderLevel() {
 						})
 						s.r.Eval(1)
 						detail := map[string]any{"proto": proto, "dialer_key": ti, "listener_key": tr, "expect": exp, "dial_ok": dialOK, "dial_err": dialErr, "dial_remote": dialPeer, "listen_ok": lisOK, "listen_remote": lisPeer}
-						if !br.OK() {
-							s.r.Violation("upgrader:bubble-failed", id, fmt.Sprint(br.Panic, br.Deadlock), map[string]any{"dump": br.Dump, "case": detail})
+						if s.r.BubbleFailed(br, "upgrader", id, "upgrade never wound down", map[string]any{"case": detail}) {
 							return
 						}
 						s.r.Nontrivial(id)
